@@ -57,3 +57,10 @@ Example C18_nonvacuous :
   run true (mkFs (Some [9]) None) [([1;2;3;4;5], CWrite 3); ([7;8], CNone)] = mkFs (Some [7;8]) None /\
   run true (mkFs (Some [9]) None) [([1;2;3;4;5], CWrite 3)] = mkFs (Some [9]) (Some [1;2;3]).
 Proof. split; reflexivity. Qed.
+
+(* ---------- lock discipline of the operations the model treats as atomic (go/ast obligation on the source under test) ---------- *)
+(* The in-memory state the saves are taken from is read and written under its mutexes for the whole
+   operation (9 methods of MemStorage): a save sees a state some sequence of operations produced. *)
+Theorem C18_lock_discipline : Gen.lock_discipline_storage = true.
+Proof. repeat split; reflexivity. Qed.
+Print Assumptions C18_lock_discipline.
